@@ -44,6 +44,12 @@ class Engine:
         self.path_managers: [MLMCPath] = []
         self.statistics: MLMCStatistics = None
 
+    def initialisation_seed(self) -> None:
+        """Seed the generator once per pricing, before any variate is drawn (single process version): seeding again
+        for every level and pass would make the samples of different levels and passes share their variates"""
+        if self.configuration.nb_of_processes == 1:
+            self.configuration.initialisation_seed()
+
     def initialisation(self, product: Product) -> None:
         """
         :param product: financial product to price
@@ -119,8 +125,7 @@ class Engine:
         nb_of_processes = self.configuration.nb_of_processes
 
         if nb_of_processes == 1:
-            # single process version
-            self.configuration.initialisation_seed()
+            # single process version (the generator is seeded once, at the beginning of the pricing)
             for iteration in range(extra_mc_paths):
                 simulated_path = simulation_path()
                 path_manager.set_to_path(simulated_path)
@@ -161,6 +166,7 @@ class Engine:
         :param product: product to price
         :param rmse: root-mean square error
         """
+        self.initialisation_seed()
         self.initialisation(product)
 
         for path_manager in self.path_managers:
@@ -307,6 +313,7 @@ class Engine:
         """
         mc_paths = self.configuration.initial_mc_paths
         max_level = self.configuration.maximum_level
+        self.initialisation_seed()
         self.initialisation(product)
         for path_manager in self.path_managers:
             path_manager.update(
